@@ -1,12 +1,609 @@
-//! C03 — (stub: no ops yet)
+//! C03 — fragment index: `binary_search_slice`, `Parameters::build_from_peptides`,
+//! `IndexedDatabase::query`, `IndexedQuery::page_search`
+//!
+//!   bss   [n f32…] lo hi                                              -> L R
+//!   page  sortmode kinds minIon [nB B…] [npep (mass seqhex)…] [nq query…]  -> db-export + results | panic
+//!   dbinv (same request format; used with nq = 0 and larger databases)
+//!
+//!   query     = ptk plo phi  ftk flo fhi  preMass fragMz charge      (kind 0 = ppm, 1 = Da, 2 = Pct)
+//!   db-export = [npep mass…] [nion (pep mz)…]  then per B: [nfrag (pep mz)…] [nmin minv…]  then per query:
+//!               fragLo fragHi preLo preHi [cnt (pep mz)…]            (pairs sorted by (pep, mz bits))
+//!
+//! The index is the REAL one: synthetic `Peptide` values (all fields public) are sorted by mass
+//! (sortmode 0: stable `total_cmp` sort in the harness; 1: `Parameters::reorder_peptides`), then
+//! `Parameters { bucket_size: B, .. }.build_from_peptides(..)` — `Parameters` is constructed directly so
+//! that `B` is not rounded to a power of two. `masses`, `frags`, `minv` are the public fields
+//! `peptides[..].monoisotopic`, `fragments`, `min_value`. `ions` is the flat ion list in generation order,
+//! recomputed here through the public `IonSeries` with the builder's ion filter.
+//! The windows are `Tolerance::bounds` of the real code (fragment tolerance scaled by the charge as in
+//! `page_search`).
 use super::Info;
-use crate::proto::{Case, Rng, Tier, Toks};
+use crate::proto::{Case, Out, Rng, Tier, Toks};
+use sage_core::database::{binary_search_slice, EnzymeBuilder, IndexedDatabase, Parameters};
+use sage_core::enzyme::Position;
+use sage_core::ion_series::{IonSeries, Kind};
+use sage_core::mass::{monoisotopic, Tolerance, H2O};
+use sage_core::peptide::Peptide;
+use std::sync::Arc;
 
-pub const OPS: &[&str] = &[];
-pub const INFO: Info = Info { rule: "", serial: false };
+pub const OPS: &[&str] = &["bss", "page", "dbinv"];
+pub const INFO: Info = Info {
+    rule: "bss: ALL sorted arrays up to length 5 (thorough 7) over 4 (5) keys x all bounds on the half-step grid \
+           (incl. lo > hi), plus random sorted arrays up to 300 (thorough: every 40th up to 3000) elements on a coarse grid (runs of equal keys) \
+           with bounds on / between / outside the keys. page: synthetic databases of 0..12 (thorough 0..25, every 11th 0..60) peptides \
+           drawn from a small pool of sequences (same sequence => identical b-ion m/z in several peptides) with masses \
+           on a 0.5 Da grid (duplicate peptide masses) or the true mass; ion kinds and min_ion_index varied; each \
+           database is built with 2-4 bucket sizes from {1,2,3,4,7,8,16,32,64,128,1024,8192, n-1, n, n+1} (last bucket \
+           partial / exactly full / B > #fragments) and queried with ~20 queries: precursor window everything / empty / \
+           inverted / partial around a stored mass / edge exactly equal to a stored peptide mass; fragment window \
+           around a stored fragment, edge exactly equal to a bucket's min_value, everything, empty; ppm, Da (and Pct \
+           precursor) tolerances; charge 1..4. dbinv: larger databases (up to 300 / 800 peptides, at most ~200 buckets), layout only. \
+           non-trivial = (bss) the window contains at least one and excludes at least one element; (page) some \
+           query returns at least one but not all stored fragments; (dbinv) at least two buckets.",
+    serial: false,
+};
 
-pub fn gen(_rng: &mut Rng, _tier: Tier, _emit: &mut dyn FnMut(Case)) {}
+// ------------------------------------------------------------------------------------------- requests
 
-pub fn exec(_op: &str, _t: &mut Toks) -> Option<String> {
-    None
+#[derive(Clone, Copy)]
+struct Query {
+    pre_tol: Tolerance,
+    frag_tol: Tolerance,
+    pre_mass: f32,
+    frag_mz: f32,
+    charge: u8,
+}
+
+#[derive(Clone)]
+struct Desc {
+    sortmode: usize,
+    kinds: usize,
+    min_ion: usize,
+    peps: Vec<(f32, Vec<u8>)>,
+}
+
+fn put_tol(o: &mut Out, t: &Tolerance) {
+    match t {
+        Tolerance::Ppm(lo, hi) => o.n(0).f32(*lo).f32(*hi),
+        Tolerance::Da(lo, hi) => o.n(1).f32(*lo).f32(*hi),
+        Tolerance::Pct(lo, hi) => o.n(2).f32(*lo).f32(*hi),
+    };
+}
+
+fn get_tol(t: &mut Toks) -> Option<Tolerance> {
+    let k = t.usize()?;
+    let lo = t.f32()?;
+    let hi = t.f32()?;
+    match k {
+        0 => Some(Tolerance::Ppm(lo, hi)),
+        1 => Some(Tolerance::Da(lo, hi)),
+        2 => Some(Tolerance::Pct(lo, hi)),
+        _ => None,
+    }
+}
+
+fn request(op: &str, d: &Desc, bs: &[usize], qs: &[Query]) -> String {
+    let mut o = Out::new();
+    o.raw(op).n(d.sortmode).n(d.kinds).n(d.min_ion);
+    o.n(bs.len());
+    for b in bs {
+        o.n(*b);
+    }
+    o.n(d.peps.len());
+    for (m, s) in &d.peps {
+        o.f32(*m).bytes(s);
+    }
+    o.n(qs.len());
+    for q in qs {
+        put_tol(&mut o, &q.pre_tol);
+        put_tol(&mut o, &q.frag_tol);
+        o.f32(q.pre_mass).f32(q.frag_mz).n(q.charge);
+    }
+    o.finish()
+}
+
+fn bss_request(xs: &[f32], lo: f32, hi: f32) -> String {
+    let mut o = Out::new();
+    o.raw("bss").n(xs.len());
+    for x in xs {
+        o.f32(*x);
+    }
+    o.f32(lo).f32(hi);
+    o.finish()
+}
+
+// ------------------------------------------------------------------------------------------- real code
+
+const KINDS: [Kind; 6] = [Kind::A, Kind::B, Kind::C, Kind::X, Kind::Y, Kind::Z];
+
+fn kinds_of(mask: usize) -> Vec<Kind> {
+    KINDS.iter().enumerate().filter(|(i, _)| mask >> i & 1 == 1).map(|(_, k)| *k).collect()
+}
+
+fn peptides_of(d: &Desc) -> Vec<Peptide> {
+    let mut peps: Vec<Peptide> = d
+        .peps
+        .iter()
+        .map(|(m, s)| Peptide {
+            decoy: false,
+            sequence: Arc::from(s.clone().into_boxed_slice()),
+            modifications: vec![0.0; s.len()],
+            nterm: None,
+            cterm: None,
+            monoisotopic: *m,
+            missed_cleavages: 0,
+            semi_enzymatic: false,
+            position: Position::Internal,
+            proteins: vec![Arc::from("P")],
+        })
+        .collect();
+    if d.sortmode == 1 {
+        Parameters::reorder_peptides(&mut peps);
+    } else {
+        peps.sort_by(|a, b| a.monoisotopic.total_cmp(&b.monoisotopic));
+    }
+    peps
+}
+
+fn params(d: &Desc, b: usize) -> Parameters {
+    Parameters {
+        bucket_size: b,
+        enzyme: EnzymeBuilder::default(),
+        peptide_min_mass: 0.0,
+        peptide_max_mass: 1.0e9,
+        ion_kinds: kinds_of(d.kinds),
+        min_ion_index: d.min_ion,
+        static_mods: Default::default(),
+        variable_mods: Default::default(),
+        max_variable_mods: 0,
+        decoy_tag: "rev_".into(),
+        generate_decoys: false,
+        fasta: String::new(),
+        prefilter_chunk_size: 0,
+        prefilter: false,
+        prefilter_low_memory: false,
+    }
+}
+
+fn build(d: &Desc, peps: &[Peptide], b: usize) -> IndexedDatabase {
+    params(d, b).build_from_peptides(peps.to_vec())
+}
+
+/// the flat ion list, in generation order (the builder's closure, through the public `IonSeries`)
+fn ions_of(d: &Desc, peps: &[Peptide]) -> Vec<(u32, f32)> {
+    let kinds = kinds_of(d.kinds);
+    let mut v = Vec::new();
+    for (idx, p) in peps.iter().enumerate() {
+        for kind in &kinds {
+            for (ion_idx, ion) in IonSeries::new(p, *kind).enumerate() {
+                let keep = match ion.kind {
+                    Kind::A | Kind::B | Kind::C => (ion_idx + 1) > d.min_ion,
+                    Kind::X | Kind::Y | Kind::Z => p.sequence.len().saturating_sub(1) - ion_idx > d.min_ion,
+                };
+                if keep {
+                    v.push((idx as u32, ion.monoisotopic_mass));
+                }
+            }
+        }
+    }
+    v
+}
+
+fn search(db: &IndexedDatabase, q: &Query) -> Vec<(u32, u32)> {
+    let mut r: Vec<(u32, u32)> = db
+        .query(q.pre_mass, q.pre_tol, q.frag_tol)
+        .page_search(q.frag_mz, q.charge)
+        .map(|f| (f.peptide_index.0, f.fragment_mz.to_bits()))
+        .collect();
+    r.sort();
+    r
+}
+
+fn windows(q: &Query) -> (f32, f32, f32, f32) {
+    let c = q.charge as f32;
+    let tol = match q.frag_tol {
+        Tolerance::Ppm(lo, hi) => Tolerance::Ppm(lo / c, hi / c),
+        t => t,
+    };
+    let (flo, fhi) = tol.bounds(q.frag_mz * c);
+    let (plo, phi) = q.pre_tol.bounds(q.pre_mass);
+    (flo, fhi, plo, phi)
+}
+
+fn parse(t: &mut Toks) -> Option<(Desc, Vec<usize>, Vec<Query>)> {
+    let sortmode = t.usize()?;
+    let kinds = t.usize()?;
+    let min_ion = t.usize()?;
+    let bs = t.list(|t| t.usize())?;
+    let peps = t.list(|t| {
+        let m = t.f32()?;
+        let s = t.bytes()?;
+        Some((m, s))
+    })?;
+    let qs = t.list(|t| {
+        let pre_tol = get_tol(t)?;
+        let frag_tol = get_tol(t)?;
+        let pre_mass = t.f32()?;
+        let frag_mz = t.f32()?;
+        let charge = t.usize()? as u8;
+        Some(Query { pre_tol, frag_tol, pre_mass, frag_mz, charge })
+    })?;
+    if !t.done() || peps.iter().any(|(_, s)| s.is_empty()) {
+        return None;
+    }
+    Some((Desc { sortmode, kinds, min_ion, peps }, bs, qs))
+}
+
+pub fn exec(op: &str, t: &mut Toks) -> Option<String> {
+    match op {
+        "bss" => {
+            let xs = t.list(|t| t.f32())?;
+            let lo = t.f32()?;
+            let hi = t.f32()?;
+            let (l, r) = binary_search_slice(&xs, |a: &f32, b| a.total_cmp(b), lo, hi);
+            let mut o = Out::new();
+            o.n(l).n(r);
+            Some(o.finish())
+        }
+        "page" | "dbinv" => {
+            let (d, bs, qs) = parse(t)?;
+            let peps = peptides_of(&d);
+            let mut o = Out::new();
+            o.n(peps.len());
+            for p in &peps {
+                o.f32(p.monoisotopic);
+            }
+            let ions = ions_of(&d, &peps);
+            o.n(ions.len());
+            for (p, m) in &ions {
+                o.n(*p).f32(*m);
+            }
+            for b in &bs {
+                let db = build(&d, &peps, *b);
+                o.n(db.fragments.len());
+                for f in &db.fragments {
+                    o.n(f.peptide_index.0).f32(f.fragment_mz);
+                }
+                o.n(db.min_value.len());
+                for m in &db.min_value {
+                    o.f32(*m);
+                }
+                for q in &qs {
+                    let r = search(&db, q);
+                    let (flo, fhi, plo, phi) = windows(q);
+                    o.f32(flo).f32(fhi).f32(plo).f32(phi);
+                    o.n(r.len());
+                    for (p, m) in r {
+                        o.n(p).n(m);
+                    }
+                }
+            }
+            Some(o.finish())
+        }
+        _ => None,
+    }
+}
+
+// ------------------------------------------------------------------------------------------- generator
+
+const POOL: [&[u8]; 12] = [
+    b"G", b"AG", b"GAS", b"PEPK", b"GASPV", b"TIDEK", b"PEPTIDE", b"AAAAAAK", b"GASPVTCL", b"LLNDEQMWK",
+    b"PEPTIDEK", b"VTCLGASPK",
+];
+const B_CHOICES: [usize; 12] = [1, 2, 3, 4, 7, 8, 16, 32, 64, 128, 1024, 8192];
+
+fn true_mass(s: &[u8]) -> f32 {
+    s.iter().map(|r| monoisotopic(*r)).sum::<f32>() + H2O
+}
+
+fn gen_desc(rng: &mut Rng, max_pep: usize) -> Desc {
+    let npep = match rng.below(12) {
+        0 => 0,
+        1 => 1,
+        2 => 2,
+        _ => rng.below(max_pep + 1),
+    };
+    let kinds = *rng.pick(&[0b010010usize, 0b010010, 0b010010, 0b000010, 0b010000, 0b100100, 0b001001, 0b111111]);
+    let min_ion = *rng.pick(&[0usize, 0, 1, 2, 2]);
+    let sortmode = rng.below(2);
+    let npool = 1 + rng.below(POOL.len());
+    let pool_start = if rng.chance(1, 4) { 0 } else { 3 + rng.below(POOL.len() - 3) };
+    let style = rng.below(3); // 0: grid masses, 1: true masses, 2: mixed
+    let grid_span = 1 + rng.below(8);
+    let base = *rng.pick(&[300.0f32, 500.0, 800.0, 1200.0]);
+    let mut peps = Vec::new();
+    for _ in 0..npep {
+        let s = POOL[(pool_start + rng.below(npool)) % POOL.len()].to_vec();
+        let grid = base + 0.5 * rng.below(grid_span) as f32;
+        let m = match style {
+            0 => grid,
+            1 => true_mass(&s),
+            _ => {
+                if rng.chance(1, 2) {
+                    grid
+                } else {
+                    true_mass(&s)
+                }
+            }
+        };
+        peps.push((m, s));
+    }
+    Desc { sortmode, kinds, min_ion, peps }
+}
+
+fn pick_bs(rng: &mut Rng, nfrag: usize) -> Vec<usize> {
+    let mut bs = Vec::new();
+    let k = 2 + rng.below(3);
+    while bs.len() < k {
+        let b = match rng.below(5) {
+            0 if nfrag > 1 => nfrag - 1,
+            1 if nfrag > 0 => nfrag,
+            2 => nfrag + 1,
+            3 => 1 + rng.below(6),
+            _ => *rng.pick(&B_CHOICES),
+        };
+        if !bs.contains(&b) {
+            bs.push(b);
+        }
+    }
+    bs
+}
+
+fn width(rng: &mut Rng) -> f32 {
+    *rng.pick(&[0.0f32, 0.001, 0.01, 0.05, 0.25, 0.5, 0.75, 1.0, 2.5, 10.0, 100.0])
+}
+
+fn ppm_width(rng: &mut Rng) -> f32 {
+    *rng.pick(&[0.0f32, 1.0, 5.0, 10.0, 20.0, 50.0, 500.0, 2000.0, 20000.0])
+}
+
+fn neg(x: f32) -> f32 {
+    // never produce -0.0 (outside the model: the code mixes total_cmp and >=)
+    if x == 0.0 {
+        0.0
+    } else {
+        -x
+    }
+}
+
+/// (tolerance, tag) whose window has `edge` exactly as its lower / upper end when centred on `edge`
+fn edge_tol(rng: &mut Rng) -> Tolerance {
+    let ppm = rng.chance(1, 2);
+    let w = if ppm { ppm_width(rng) } else { width(rng) };
+    let (lo, hi) = match rng.below(3) {
+        0 => (0.0, w),
+        1 => (neg(w), 0.0),
+        _ => (0.0, 0.0),
+    };
+    if ppm {
+        Tolerance::Ppm(lo, hi)
+    } else {
+        Tolerance::Da(lo, hi)
+    }
+}
+
+fn sym_tol(rng: &mut Rng, allow_pct: bool) -> Tolerance {
+    match rng.below(if allow_pct { 5 } else { 4 }) {
+        0 | 1 => {
+            let w = ppm_width(rng);
+            Tolerance::Ppm(neg(w), w)
+        }
+        2 | 3 => {
+            let w = width(rng);
+            let w2 = width(rng);
+            Tolerance::Da(neg(w), w2)
+        }
+        _ => {
+            let w = *rng.pick(&[0.0f32, 0.01, 0.1, 1.0, 50.0]);
+            Tolerance::Pct(neg(w), w)
+        }
+    }
+}
+
+struct QTags {
+    tags: Vec<&'static str>,
+}
+
+fn gen_query(rng: &mut Rng, dbs: &[IndexedDatabase], tags: &mut QTags) -> Query {
+    let db = &dbs[rng.below(dbs.len())];
+    let masses: Vec<f32> = db.peptides.iter().map(|p| p.monoisotopic).collect();
+    let charge = 1 + rng.below(4) as u8;
+    // ---- precursor side
+    let everything = Tolerance::Da(-1.0e6, 1.0e6);
+    let (pre_mass, pre_tol) = match rng.below(10) {
+        0 => {
+            tags.tags.push("pre:everything");
+            (1000.0, everything)
+        }
+        1 => {
+            tags.tags.push("pre:empty-outside");
+            (*rng.pick(&[1.0f32, 50000.0]), Tolerance::Ppm(-10.0, 10.0))
+        }
+        2 => {
+            tags.tags.push("pre:inverted");
+            (masses.first().copied().unwrap_or(500.0), Tolerance::Da(1.0, -1.0))
+        }
+        3 | 4 | 5 if !masses.is_empty() => {
+            tags.tags.push("pre:edge-equals-stored-mass");
+            (*rng.pick(&masses), edge_tol(rng))
+        }
+        6 if !masses.is_empty() => {
+            tags.tags.push("pre:between");
+            let m = *rng.pick(&masses);
+            (m + *rng.pick(&[0.25f32, -0.25, 0.001, -0.001]), sym_tol(rng, true))
+        }
+        _ => {
+            tags.tags.push("pre:around-stored-mass");
+            (masses.get(rng.below(masses.len().max(1))).copied().unwrap_or(500.0), sym_tol(rng, true))
+        }
+    };
+    // ---- fragment side
+    let c = charge as f32;
+    let (frag_mz, frag_tol) = match rng.below(10) {
+        0 => {
+            tags.tags.push("frag:everything");
+            (500.0, Tolerance::Da(-1.0e5, 1.0e5))
+        }
+        1 => {
+            tags.tags.push("frag:empty");
+            (*rng.pick(&[0.5f32, 90000.0]), Tolerance::Ppm(-10.0, 10.0))
+        }
+        2 | 3 | 4 | 5 if !db.min_value.is_empty() => {
+            // window edge exactly equal to a bucket's min_value (charge 1: mass = mz exactly; otherwise mz = mv / c)
+            tags.tags.push("frag:edge-equals-min_value");
+            let mv = *rng.pick(&db.min_value);
+            (mv / c, edge_tol(rng))
+        }
+        6 if !db.fragments.is_empty() => {
+            tags.tags.push("frag:edge-equals-stored-fragment");
+            let f = rng.pick(&db.fragments).fragment_mz;
+            (f / c, edge_tol(rng))
+        }
+        _ => {
+            tags.tags.push("frag:around-stored-fragment");
+            let f = if db.fragments.is_empty() { 300.0 } else { rng.pick(&db.fragments).fragment_mz };
+            (f / c, sym_tol(rng, false))
+        }
+    };
+    Query { pre_tol, frag_tol, pre_mass, frag_mz, charge }
+}
+
+fn sorted_arrays(keys: &[f32], maxlen: usize, emit: &mut dyn FnMut(&[f32])) {
+    fn rec(keys: &[f32], from: usize, cur: &mut Vec<f32>, left: usize, emit: &mut dyn FnMut(&[f32])) {
+        emit(cur);
+        if left == 0 {
+            return;
+        }
+        for k in from..keys.len() {
+            cur.push(keys[k]);
+            rec(keys, k, cur, left - 1, emit);
+            cur.pop();
+        }
+    }
+    rec(keys, 0, &mut Vec::new(), maxlen, emit);
+}
+
+fn bss_case(xs: &[f32], lo: f32, hi: f32, tag: &'static str) -> Case {
+    let inside = xs.iter().filter(|x| **x >= lo && **x <= hi).count();
+    Case::new(bss_request(xs, lo, hi))
+        .tag(tag)
+        .tag_if(xs.is_empty(), "bss:empty-slice")
+        .tag_if(lo > hi, "bss:inverted-bounds")
+        .tag_if(inside == 0, "bss:window-empty")
+        .tag_if(inside == xs.len() && !xs.is_empty(), "bss:window-everything")
+        .tag_if(xs.iter().any(|x| *x == lo || *x == hi), "bss:bound-equals-key")
+        .nontrivial(inside > 0 && inside < xs.len())
+}
+
+pub fn gen(rng: &mut Rng, tier: Tier, emit: &mut dyn FnMut(Case)) {
+    let quick = tier == Tier::Quick;
+    // ---------------- bss: exhaustive small scope
+    let (nkeys, maxlen) = if quick { (4, 5) } else { (5, 7) };
+    let keys: Vec<f32> = (1..=nkeys).map(|k| k as f32).collect();
+    let bounds: Vec<f32> = (1..=2 * nkeys + 1).map(|k| k as f32 * 0.5).collect();
+    let mut arrays: Vec<Vec<f32>> = Vec::new();
+    sorted_arrays(&keys, maxlen, &mut |a| arrays.push(a.to_vec()));
+    for a in &arrays {
+        for &lo in &bounds {
+            for &hi in &bounds {
+                emit(bss_case(a, lo, hi, "bss:exhaustive"));
+            }
+        }
+    }
+    // ---------------- bss: random, long runs of equal keys
+    let n_rand = if quick { 1500 } else { 60000 };
+    for i in 0..n_rand {
+        let max_n = if !quick && i % 40 == 0 { 3000 } else { 300 };
+        let n = match rng.below(8) {
+            0 => rng.below(4),
+            _ => rng.below(max_n + 1),
+        };
+        let span = 1 + rng.below(20);
+        let base = *rng.pick(&[0.0f32, 100.0, 1000.0]);
+        let mut xs: Vec<f32> = (0..n).map(|_| base + 0.5 * rng.below(span) as f32).collect();
+        xs.sort_by(|a, b| a.total_cmp(b));
+        let pickb = |rng: &mut Rng| -> f32 {
+            match rng.below(4) {
+                0 if !xs.is_empty() => *rng.pick(&xs),
+                1 => base + 0.5 * rng.below(span + 1) as f32 + 0.25,
+                2 => base - 1.0 + (span as f32 + 2.0) * rng.below(2) as f32,
+                _ => base + 0.5 * rng.range(-2, span as i64 + 2) as f32,
+            }
+        };
+        let a = pickb(rng);
+        let b = pickb(rng);
+        let (lo, hi) = if rng.chance(9, 10) { (a.min(b), a.max(b)) } else { (a.max(b), a.min(b)) };
+        let lo = if lo == 0.0 { 0.0 } else { lo };
+        let hi = if hi == 0.0 { 0.0 } else { hi };
+        emit(bss_case(&xs, lo, hi, "bss:random"));
+    }
+
+    // ---------------- page: database families x queries
+    let (n_db, n_q) = if quick { (260, 20) } else { (6600, 30) };
+    for i in 0..n_db {
+        let max_pep = if quick { 12 } else if i % 11 == 0 { 60 } else { 25 };
+        let d = gen_desc(rng, max_pep);
+        let peps = peptides_of(&d);
+        let nfrag = ions_of(&d, &peps).len();
+        let bs = pick_bs(rng, nfrag);
+        let dbs: Vec<IndexedDatabase> = bs.iter().map(|b| build(&d, &peps, *b)).collect();
+        let mut qt = QTags { tags: vec![] };
+        let nq = if i % 7 == 0 { 3 } else { n_q };
+        let qs: Vec<Query> = (0..nq).map(|_| gen_query(rng, &dbs, &mut qt)).collect();
+        let mut nontrivial = false;
+        for q in &qs {
+            let r = search(&dbs[0], q).len();
+            if r > 0 && r < nfrag {
+                nontrivial = true;
+            }
+        }
+        let masses: Vec<u32> = peps.iter().map(|p| p.monoisotopic.to_bits()).collect();
+        let mut dm = masses.clone();
+        dm.dedup();
+        let mut c = Case::new(request("page", &d, &bs, &qs))
+            .tag_if(peps.is_empty(), "db:no-peptides")
+            .tag_if(peps.len() == 1, "db:one-peptide")
+            .tag_if(nfrag == 0, "db:no-fragments")
+            .tag_if(dm.len() < masses.len(), "db:duplicate-peptide-masses")
+            .tag_if(bs.iter().any(|b| nfrag % b != 0), "db:last-bucket-partial")
+            .tag_if(bs.iter().any(|b| *b > nfrag), "db:B>fragments")
+            .tag_if(bs.iter().any(|b| *b == 1), "db:B=1")
+            .tag_if(qs.iter().any(|q| matches!(q.frag_tol, Tolerance::Ppm(..))), "tol:frag-ppm")
+            .tag_if(qs.iter().any(|q| matches!(q.frag_tol, Tolerance::Da(..))), "tol:frag-da")
+            .tag_if(qs.iter().any(|q| q.charge > 1), "charge>1")
+            .tag_if(nontrivial, "page:some-query-partial")
+            .nontrivial(nontrivial);
+        qt.tags.sort();
+        qt.tags.dedup();
+        for t in qt.tags {
+            c = c.tag(t);
+        }
+        emit(c);
+    }
+    // directed: rejected configurations (panic is the expected output class)
+    {
+        let d = Desc { sortmode: 0, kinds: 0b010010, min_ion: 0, peps: vec![(500.0, b"PEPTIDE".to_vec())] };
+        emit(Case::new(request("page", &d, &[0], &[])).tag("reject:B=0").nontrivial(false));
+        let q = Query {
+            pre_tol: Tolerance::Da(-1.0, 1.0),
+            frag_tol: Tolerance::Pct(-1.0, 1.0),
+            pre_mass: 500.0,
+            frag_mz: 200.0,
+            charge: 1,
+        };
+        emit(Case::new(request("page", &d, &[4], &[q])).tag("reject:pct-fragment-tolerance").nontrivial(false));
+    }
+    // ---------------- dbinv: larger layouts, no queries
+    let (n_inv, max_pep_inv) = if quick { (40, 300) } else { (150, 800) };
+    for _ in 0..n_inv {
+        let d = gen_desc(rng, max_pep_inv);
+        let peps = peptides_of(&d);
+        let nfrag = ions_of(&d, &peps).len();
+        // keep the number of buckets of a large layout below ~200 (small B on large layouts is quadratic in the driver)
+        let bs: Vec<usize> = pick_bs(rng, nfrag).into_iter().map(|b| b.max(nfrag / 200)).collect();
+        emit(Case::new(request("dbinv", &d, &bs, &[]))
+            .tag_if(bs.iter().any(|b| nfrag % b != 0), "db:last-bucket-partial")
+            .tag_if(bs.iter().any(|b| *b > nfrag), "db:B>fragments")
+            .nontrivial(bs.iter().any(|b| nfrag > *b)));
+    }
 }
